@@ -127,6 +127,9 @@ pub struct Prior {
     pub other_paragraph: bool,
     /// DEP-3 only: the mail-header forms are present (From / Subject)
     pub mail_form: bool,
+    /// the document is first passed through Deb822::wrap_and_sort(None, None); the accessors then work on the live object
+    /// that call returned (paragraph-handle views only)
+    pub wrapped: bool,
     /// a foreign field whose name is the target's name in other letter case (names are compared exactly by the
     /// library): 0 none, 1 lower case before the target, 2 upper case after it
     pub case_variant: u8,
@@ -338,7 +341,10 @@ fn check_set(ri: usize, prior: &Prior, vals: &[Val], sibling: Option<usize>) -> 
         View::CopyHeader | View::CopyFiles => Live::Copyright(debian_copyright::lossless::Copyright::from_str(&text).map_err(|e| Failure { assertion: "infra/start".into(), message: format!("{:?}: {}", text, e) })?),
         View::Dep3 => Live::Dep3(dep3::lossless::PatchHeader::from_str(&text).map_err(|e| Failure { assertion: "infra/start".into(), message: format!("{:?}: {}", text, e) })?),
         View::Changes => Live::Changes(debian_control::lossless::changes::Changes::read(text.as_bytes()).map_err(|e| Failure { assertion: "infra/start".into(), message: format!("{:?}: {}", text, e) })?),
-        _ => Live::Doc(Deb822::from_str(&text).map_err(|e| Failure { assertion: "infra/start".into(), message: format!("{:?}: {:?}", text, e.to_string()) })?),
+        _ => {
+            let d = Deb822::from_str(&text).map_err(|e| Failure { assertion: "infra/start".into(), message: format!("{:?}: {:?}", text, e.to_string()) })?;
+            Live::Doc(if prior.wrapped { d.wrap_and_sort(None, None) } else { d })
+        }
     };
     let names = alt_names(row);
     let exact = prior.case_variant != 0;
@@ -796,6 +802,7 @@ fn gen_prior(t: &mut Tape, kind: &str) -> Prior {
         other_paragraph: t.chance(1, 2),
         mail_form: t.chance(1, 3),
         case_variant: if t.chance(1, 6) { t.range(1, 2) as u8 } else { 0 },
+        wrapped: t.chance(1, 6),
     }
 }
 
@@ -820,7 +827,7 @@ impl PropImpl for C15 {
     }
     fn expected_labels(&self) -> Vec<&'static str> {
         let mut v: Vec<&'static str> = ROWS.iter().map(|r| r.label).collect();
-        v.extend(["prior:field-present", "prior:field-absent", "prior:comments-around-field", "prior:fields-before", "prior:fields-after", "prior:second-paragraph", "prior:field-with-the-same-name-in-other-letter-case", "several-setter-calls", "setter-called-twice-with-the-same-value", "consecutive-lists-share-a-prefix", "value:list-longer-than-a-line", "clearing-setter", "sibling-field-holds-the-same-value", "getter:comma-lists", "getter:space-lists", "getter:checksum-triples", "getter:yes-no-flags", "getter:dep3", "getter:control-roles", "getter:changes", "getter:source-vcs", "getter:copyright", "getter:relationship-fields-of-every-view", "getter:relationship-field-with-substitution-variable"]);
+        v.extend(["prior:field-present", "prior:field-absent", "prior:comments-around-field", "prior:fields-before", "prior:fields-after", "prior:second-paragraph", "prior:field-with-the-same-name-in-other-letter-case", "prior:document-is-the-result-of-wrap-and-sort", "several-setter-calls", "setter-called-twice-with-the-same-value", "consecutive-lists-share-a-prefix", "value:list-longer-than-a-line", "clearing-setter", "sibling-field-holds-the-same-value", "getter:comma-lists", "getter:space-lists", "getter:checksum-triples", "getter:yes-no-flags", "getter:dep3", "getter:control-roles", "getter:changes", "getter:source-vcs", "getter:copyright", "getter:relationship-fields-of-every-view", "getter:relationship-field-with-substitution-variable"]);
         v
     }
     fn budget(&self, tier: Tier) -> Budget {
@@ -847,6 +854,7 @@ impl PropImpl for C15 {
             other_paragraph: s & 4 == 4,
             mail_form: s == 3 || s == 6,
             case_variant: 0,
+            wrapped: false,
         };
         Case::Set { row, prior, vals: vec![val], sibling: None }
     }
@@ -910,6 +918,7 @@ impl PropImpl for C15 {
                 ctx.label_if(prior.fields_after > 0, "prior:fields-after");
                 ctx.label_if(prior.other_paragraph, "prior:second-paragraph");
                 ctx.label_if(prior.case_variant != 0, "prior:field-with-the-same-name-in-other-letter-case");
+                ctx.label_if(prior.wrapped && !matches!(ROWS[*row].view, View::CopyHeader | View::CopyFiles | View::Dep3 | View::Changes), "prior:document-is-the-result-of-wrap-and-sort");
                 ctx.label_if(vals.len() > 1, "several-setter-calls");
                 ctx.label_if(vals.windows(2).any(|w| w[0] == w[1]), "setter-called-twice-with-the-same-value");
                 ctx.label_if(vals.windows(2).any(|w| matches!((&w[0], &w[1]), (Val::OList(Some(a)), Val::OList(Some(b))) if a != b && (a.starts_with(b) || b.starts_with(a)))), "consecutive-lists-share-a-prefix");
